@@ -449,7 +449,7 @@ func main() {
 		racePrefix := filepath.Join(base, "race")
 		seenV := map[string]int{}
 		for round := 0; round < rounds; round++ {
-			dir := filepath.Join(base, fmt.Sprintf("cache%d", round))
+			dir := filepath.Join(base, fmt.Sprintf("cache%d%s", round, []string{"", "[ab]", " %s", "?*"}[round%4])) // a directory's own name is just a name
 			os.MkdirAll(dir, 0o777)
 			if _, err := cache.Open(dir); err != nil { // create the 256 sub-directories once
 				r.Inconclusive(err.Error())
